@@ -208,7 +208,7 @@ where
                     tracing::trace!("read frame from stream: {:?}", ret);
                     if buf.len() >= ret {
                         let buf = buf.split_to(ret).freeze();
-                        let ret = Frame::from_buffer(buf).unwrap();
+                        let ret = Frame::from_buffer(buf)?;
                         return Ok(Some(ret));
                     }
                 }
